@@ -119,6 +119,9 @@ pub struct Config {
     /// data memory (everything outside the table zones) reads as zero instead of garbage
     #[serde(default)]
     pub zero_data: bool,
+    /// one mapper object for the whole run instead of a fresh one per call
+    #[serde(default)]
+    pub persist: bool,
     /// recursive view: build the mapper with `new_unchecked(alias, R)` where `alias` is another
     /// mapping of the level-4 table (not its recursive address)
     #[serde(default)]
